@@ -25,6 +25,7 @@ EXPLANATION = (
 EXPLANATION += (" Hook functions and classes are resolved in the module named by their own entry; the scheduler / environment a decoded object is registered with is read after the hooks that may replace it. Premises: C01 (declared scheduling), C04's Environment.add_agent rules.")
 EXPLANATION += (" decode() stores only 'model' / 'agent_index' into a listed 'params' dictionary, and its only direct raise is the one for a description that could not be opened.")
 EXPLANATION += (" get_module_name returns the entry's 'module' verbatim (the default only when the entry has none); no function of the decoder reads the process environment.")
+EXPLANATION += (' The description file is opened as UTF-8 (no other explicit encoding).')
 ASSUMPTIONS = ["what user decode() static methods and hooks do is outside the package", "sys.modules name resolution at run time"]
 
 HOOKS = {'pre_model_decode': 'data', 'post_model_decode': 'data', 'pre_system_init': 'system', 'post_system_init': 'system',
@@ -394,6 +395,23 @@ def run(cx: Cx):
                 txt = n_.id
             if txt and env_hit is None:
                 env_hit = (f_, n_, txt)
+    enc_hit = None
+    for q_, f_ in sorted(cx.prog.functions.items()):
+        if not q_.startswith(DEC) or '#' in q_:
+            continue
+        for n_ in _ast1.walk(f_.node):
+            if isinstance(n_, _ast1.Call) and isinstance(n_.func, _ast1.Name) and n_.func.id == 'open':
+                for k_ in n_.keywords:
+                    if k_.arg == 'encoding' and not (isinstance(k_.value, _ast1.Constant) and
+                                                     str(k_.value.value).lower().replace('_', '-') in ('utf-8', 'utf8', 'utf-8-sig', 'none')) \
+                            and not isinstance(k_.value, _ast1.Name):
+                        enc_hit = enc_hit or (f_, n_, _ast1.unparse(k_.value))
+    if enc_hit:
+        f_, n_, txt = enc_hit
+        cx.violation('R-FWD', f_.qualname, 'description-decoded-as-written',
+                     f"{f_.qualname} opens the description with encoding={txt}: JSON text is UTF-8, and any id, prefix or parameter with "
+                     f"a non-ASCII character is decoded into other characters - the model holds systems and agents under ids the file does "
+                     f"not list", where=cx.where(f_, n_.lineno))
     if env_hit:
         f_, n_, txt = env_hit
         cx.violation('R-FWD', f_.qualname, 'description-decoded-as-written',
